@@ -53,6 +53,28 @@ def main(argv):
                     R.add(req_ob("R-PATHS", "clamp outcome %s" % (state,), "rules can be evaluated on the clamped paths", None, detail=str(e)))
                 finally:
                     RS.DEFAULT_CLAMP = (False, False)
+            # ... and for the other ways the solver can be called where a rule does not fix them: default halo, single
+            # precision, one scalar level
+            styles = [{"halo": "default"}, {"precision": "single"}]
+            if prop in ("C01", "C04", "C05", "C06"):
+                # the shape rules of C02, C03, C07 and C10 are written for the array form of `levels`; the scalar form's shapes are C11's R-SHAPE-OUT
+                styles.append({"levels_kind": "scalar"})
+            for style in styles:
+                saved = dict(RS.DEFAULT_STYLE)
+                RS.DEFAULT_STYLE.update(style)
+                tag = ", ".join("%s=%s" % kv for kv in style.items())
+                try:
+                    R2, _ = fn(P, tier)
+                    for o in R2.obs:
+                        o.site = "%s [%s]" % (o.site, tag)
+                        R.add(o)
+                except AnalysisError as e:
+                    from report import req_ob
+
+                    R.add(req_ob("R-PATHS", "call style %s" % tag, "rules can be evaluated for this call style", None, detail=str(e)))
+                finally:
+                    RS.DEFAULT_STYLE.clear()
+                    RS.DEFAULT_STYLE.update(saved)
         if tier == "thorough" and not os.environ.get("VERIF_EVIDENCE_DIR"):
             import selftest
             from report import req_ob
